@@ -1668,7 +1668,8 @@ func (i *SQLStore) DeleteInvoice(ctx context.Context,
 	return nil
 }
 
-// DeleteCanceledInvoices removes all canceled invoices from the database.
+// DeleteCanceledInvoices removes all canceled invoices that never recorded an
+// htlc from the database.
 func (i *SQLStore) DeleteCanceledInvoices(ctx context.Context) error {
 	writeTxOpt := sqldb.WriteTxOpt()
 	err := i.db.ExecTx(ctx, writeTxOpt, func(db SQLInvoiceQueries) error {
